@@ -131,3 +131,41 @@ PROPS["C20"] = {
     "not_covered": ["32-bit chunked local metadata layout (this build is 64-bit)", "set_raw_byte_atomic / load_raw_byte / load_raw_word (raw accessors, not per-field)",
                     "extreme_assertions sanity table"],
 }
+
+PROPS["C25"] = {
+    "level": "proof",
+    "anchors": [("verify_no_overlap_contiguous", "src/util/metadata/side_metadata/sanity.rs"),
+                ("verify_global_specs", "src/util/metadata/side_metadata/sanity.rs"),
+                ("verify_local_specs_size", "src/util/metadata/side_metadata/sanity.rs")],
+    "kani": {"prefix": "c25_", "files": ["c25_sanity.rs"], "timeout_quick": 900, "timeout_thorough": 2400},
+    "functions": ["sanity::verify_no_overlap_contiguous", "sanity::verify_global_specs", "sanity::verify_global_specs_total_size",
+                  "sanity::verify_local_specs_size", "helpers::metadata_address_range_size"],
+    "explanation": "verify_no_overlap_contiguous is run on two fully symbolic well-formed specs and a symbolic base: Err <=> the "
+                   "address ranges [base+offset_i, base+offset_i+range_size_i) intersect (loop-free, complete). verify_global_specs is "
+                   "run on every slice of <= 3 symbolic global specs: Err <=> total size over the bound or two different specs overlap "
+                   "(loops bounded by the slice length; the pair predicate is the quantified part and is complete).",
+    "bounds": ["verify_global_specs: slices of length <= 3 (pairwise predicate complete)", "verify_local_specs_size: slices of length <= 2"],
+    "assumptions": ["well-formed specs: log_num_of_bits <= 6, 0 <= log data/meta ratio <= 47, offset <= 2^50; base <= 2^62 (no address overflow)"],
+    "trusted_base": ["kani::stub of global_side_metadata_base_address (symbolic base)", "kani::stub of alloc::fmt::format (error text irrelevant)"],
+    "not_covered": ["SideMetadataSanity::verify_metadata_context / verify_local_specs / get_all_specs (HashMap state, global RwLock): the "
+                    "per-plan bookkeeping around the verified pair/slice predicates"],
+}
+
+PROPS["C32"] = {
+    "level": "proof",
+    "anchors": [("create_descriptor_from_heap_range", "src/util/heap/space_descriptor.rs"), ("get_start", "src/util/heap/space_descriptor.rs"),
+                ("get_extent", "src/util/heap/space_descriptor.rs"), ("create_descriptor", "src/util/heap/space_descriptor.rs")],
+    "kani": {"prefix": "c32_", "files": ["c32_descriptor.rs", "layout.rs"], "timeout_quick": 900, "timeout_thorough": 2400},
+    "functions": ["SpaceDescriptor::{create_descriptor_from_heap_range, get_start, get_start_32, get_extent, get_extent_32, is_contiguous, "
+                  "is_contiguous_hi, is_empty, get_index, create_descriptor}"],
+    "explanation": "create_descriptor_from_heap_range followed by the decoders is run on symbolic (start, chunk count) under (a) any layout "
+                   "with force_use_contiguous_spaces=false and exactly the limits the mantissa/exponent/size encoding admits, (a') the "
+                   "concrete 32-bit layout for every range inside its heap, (b) any valid layout with force_use_contiguous_spaces=true. "
+                   "The exponent loop is bounded by the operand width (unwind 48 >= 64-18, unwinding assertion on), so the proofs are complete.",
+    "bounds": ["exponent loop unwound to 48 (>= 46 possible iterations: operand width minus BASE_EXPONENT)"],
+    "assumptions": ["encoding limits as precondition: start != 0 chunk-aligned, 1 <= chunks < 1024, trailing zeros of start>>18 < 32, "
+                    "odd part < 2^47 (the 32-bit layout satisfies them for every range in its heap, proved by c32_roundtrip_layout32)",
+                    "64-bit style: start aligned to the space extent and inside [heap_start, heap_end)"],
+    "trusted_base": ["kani::stub of vm_layout() by a symbolic VMLayout constrained exactly by VMLayout::validate's conditions"],
+    "not_covered": ["start > heap_end in the 64-bit style (the code encodes index usize::MAX; no caller does this)"],
+}
